@@ -193,7 +193,8 @@ func exact(b []byte) []byte {
 func nontrivial(c inputCase) bool { return len(c.Input) >= 2 && c.How != "seed" }
 
 // mutations enumerates the systematic neighbourhood of one valid encoding.
-func mutations(seed []byte, text bool, yield func(b []byte, how string)) {
+func mutations(seed []byte, e *entry, yield func(b []byte, how string)) {
+	text := e.Text
 	yield(seed, "seed")
 	n := len(seed)
 	pos := func(limit int) []int {
@@ -228,6 +229,27 @@ func mutations(seed []byte, text bool, yield func(b []byte, how string)) {
 			m := append([]byte{}, seed...)
 			m[i] += d
 			yield(m, "corrupt")
+		}
+	}
+	// the format's own codes (types, opcodes, identifiers): at every position, or where the entry point
+	// says its codes stand
+	if len(e.Codes) > 0 {
+		ps := pos(64)
+		if e.CodesAt != nil {
+			ps = e.CodesAt(seed)
+		}
+		generic := map[byte]bool{}
+		for _, v := range vals {
+			generic[v] = true
+		}
+		for _, i := range ps {
+			for _, v := range e.Codes {
+				if i < n && seed[i] != v && !generic[v] && v != seed[i]+1 && v != seed[i]-1 {
+					m := append([]byte{}, seed...)
+					m[i] = v
+					yield(m, "format-code")
+				}
+			}
 		}
 	}
 	if text {
@@ -345,13 +367,13 @@ func TestSystematic(t *testing.T) {
 	s.SetExhaustive()
 	wd = vf.NewWatchdog(s, 20*time.Second)
 	defer func() { wd = nil }()
-	s.Note("%d entry points; every valid encoding (seed) with all truncations, single-byte boundary corruptions at every position, 16/32-bit windows driven to extremes, pointer bytes", len(entryList))
+	s.Note("%d entry points; every valid encoding (seed) with all truncations, single-byte boundary corruptions at every position, the format's own type/opcode codes, 16/32-bit windows driven to extremes, pointer bytes", len(entryList))
 	defer notePeak(s)
 	vf.Enum(s, func(yield func(inputCase)) {
 		for i := range entryList {
 			e := &entryList[i]
 			for _, seed := range seedsOf(e) {
-				mutations(seed, e.Text, func(b []byte, how string) {
+				mutations(seed, e, func(b []byte, how string) {
 					s.Class(how)
 					yield(inputCase{e.Name, b, how})
 				})
